@@ -34,8 +34,29 @@ pub struct Snapshot {
     pub headers: BTreeMap<(u32, Option<u32>), Result<(u32, Vec<Vec<u8>>), String>>,
     pub fee_cache: Option<(Vec<u8>, Vec<u64>)>,
     pub counters: (u64, u64, u64, u64),
+    /// Gauges of the metrics endpoint that are functions of the tree, the configuration and the
+    /// error counters (so they must be invariant wherever the other answers are).
+    pub metrics: Vec<(String, String)>,
+    /// Raw sizes of the stable UTXO set as reported by the metrics endpoint (they move while a
+    /// block is being ingested in slices, so `diff` does not compare them; C09 does across an upgrade).
+    pub metrics_sizes: Vec<(String, String)>,
     pub traps: Vec<String>,
 }
+
+pub const TREE_GAUGES: [&str; 11] = [
+    "main_chain_height",
+    "stable_height",
+    "anchor_difficulty",
+    "unstable_blocks_num_tips",
+    "unstable_blocks_total",
+    "unstable_blocks_depth",
+    "api_access{flag=\"enabled\"}",
+    "num_get_successors_rejects",
+    "num_block_deserialize_errors",
+    "num_insert_block_errors",
+    "send_transaction_count",
+];
+pub const SIZE_GAUGES: [&str; 2] = ["utxos_length", "address_utxos_length"];
 
 pub fn take(w: &World) -> Snapshot {
     let net = w.cfg.net;
@@ -122,7 +143,20 @@ pub fn take(w: &World) -> Snapshot {
             ),
         )
     });
-    Snapshot { config, info, utxos_length, utxos, balances, headers, fee_cache, counters, traps }
+    let (mut metrics, mut metrics_sizes) = (vec![], vec![]);
+    match sut::http("/metrics") {
+        Ok((200, m)) => {
+            for g in TREE_GAUGES {
+                metrics.push((g.to_string(), format!("{:?}", sut::metric(&m, g))));
+            }
+            for g in SIZE_GAUGES {
+                metrics_sizes.push((g.to_string(), format!("{:?}", sut::metric(&m, g))));
+            }
+        }
+        Ok((code, _)) => traps.push(format!("the metrics endpoint answered with status {code}")),
+        Err(p) => traps.push(format!("metrics endpoint: {p}")),
+    }
+    Snapshot { config, info, utxos_length, utxos, balances, headers, fee_cache, counters, metrics, metrics_sizes, traps }
 }
 
 /// First difference between two snapshots, if any. `ignore_counters` masks the error counters,
@@ -172,6 +206,11 @@ pub fn diff(a: &Snapshot, b: &Snapshot, ignore_counters: bool, ignore_fee_cache:
     }
     if !ignore_fee_cache && a.fee_cache != b.fee_cache {
         return Some("the stored fee percentiles changed".to_string());
+    }
+    for ((k, va), (_, vb)) in a.metrics.iter().zip(b.metrics.iter()) {
+        if va != vb && !(ignore_counters && (k.starts_with("num_") || k == "send_transaction_count")) {
+            return Some(format!("metrics endpoint: {k} changed: {va} -> {vb}"));
+        }
     }
     if !ignore_counters && a.counters != b.counters {
         return Some(format!("counters changed: {:?} -> {:?}", a.counters, b.counters));
